@@ -14,7 +14,18 @@ def vs(design, text):
       technique="stateless model checking of the instrumented implementation: exhaustive DFS over all interleavings, select tie-breaks, map orders and fault positions, with state-key pruning",
       text=text, note=VS_NOTE)
 
+SQ_NOTE = ("Trusted base: the reference model (a Go list), the reflective state hash (equal concrete private state + deterministic code => equal futures), "
+           "and the small-scope hypothesis for the stated alphabets, capacities, depths and clock budgets. The real, uninstrumented package is executed; no model of it is involved.")
+
+def sq(design, cat, technique, text, note=SQ_NOTE):
+    return dict(engine="seqx", category=cat, design=design, technique=technique, text=text, note=note)
+
+BFS = "explicit-state breadth-first search over operation histories of the real object (re-executed per state), states deduplicated by concrete-state hash, reference-model comparison of every probe in every state"
+
 CHECKS = {
+ "C08": sq("4/C08", "model_checking", BFS, "All histories of valid/invalid Puts up to 4N+2 (thorough 6N+3) operations for capacities 2..4 (thorough ..5), both ID modes: the reachable concrete states of the ring buffer are enumerated completely (the state space closes: the frontier empties), and in each of them every Replay probe (every issued ID, never-issued, next-to-be-issued, unset x 4 topic sets x failing Send position) is compared with a list of the last N accepted events."),
+ "C09": sq("4/C09", "model_checking", BFS, "All histories over {Put a, Put b, invalid Put, GC, advance 1 tick, advance TTL, 5 Puts, 9 Puts} up to depth 7 (thorough 10) with bounded clock advances and macro operations, TTL 2/3 ticks x 5 GCInterval settings x both ID modes, so the buffer grows 4-8-16-32, wraps and shrinks again; in every reachable state every probe is compared with a list model with per-entry expiry and every unexpired event must still be held."),
+ "C18": sq("4/C18", "model_checking", BFS, "Same state spaces as C08 and C09; the invariant 'the set of *Message reachable from the replayer (reflective walk, slices to capacity) contains only the last N accepted / nothing expired right after a collection' is evaluated in every reachable state."),
  "C03": vs("4/C03", "2-3 subscribers on disjoint/overlapping/default topics (one cancelled after noting which publishes had returned, or one failing), 2-3 publisher threads, fast and slow clients: ALL schedules at synchronisation granularity are executed on the real code; the oracle rebuilds Joe's serialisation order from the recording replayer and checks exactly-once, order, topic matching, completeness and Send-then-Flush on every execution."),
  "C04": vs("4/C04", "Real FiniteReplayer/ValidReplayer behind a recording wrapper, manual and automatic IDs, histories below/at/beyond capacity and across the ring's wrap point, every presentable ID (each buffered one, newest, evicted, never issued, next-to-be-issued, none), one or two resuming subscribers racing a publisher: ALL schedules; the Send sequence must equal [reference replay of the puts before the registration] ++ [matching puts after it], IDs identical live and replayed."),
  "C07": vs("4/C07", "Every multiset of up to 4 actors {Subscribe, Subscribe+cancel, Publish, 2xPublish, Shutdown, Shutdown(ctx)+cancel} with a Shutdown, Joe initialised before or by the racing calls, fast/slow clients, followed by late calls: ALL schedules; termination is decided by the scheduler's deadlock detector (no timeouts), return values by the oracle."),
